@@ -50,6 +50,7 @@ def parseOp (ws : List String) : Option Op :=
   | ["freset"] => some .freset
   | ["hs", f, n, r] => some (.hs (nat f) (nat n) (nat r))
   | ["hsdone", s] => some (.hsdone (nat s))
+  | ["rt", _, _] => some .nop
   | ["coldreset"] => some .coldreset
   | ["fabrecover", i] => some (.fabrecover (nat i))
   | _ => none
@@ -479,7 +480,9 @@ def oracle (st : OSt) (op : Op) (v : View) (kind : String) : OSt × List String 
         else []
       | .restart | .crash _ | .corrupt =>
         (["B", "UL", "NL"].filterMap (fun name =>
-          let want := getS cx4 name (if name == "NL" then "-" else "")
+          -- (a binding of a fabric that was never committed goes with it)
+          let want0 := getS cx4 name (if name == "NL" then "-" else "")
+          let want := if name == "B" then ";".intercalate ((items want0).filter (fun e => present (entryFab e))) else want0
           if xm name ≠ want then some s!"C11 restart-mismatch: after the restart {name}[{xm name}] but acknowledged [{want}]" else none)) ++
         (v.fabs.filterMap (fun f =>
           let want := getS cx4 s!"K:{f.idx}" "-"
@@ -489,6 +492,8 @@ def oracle (st : OSt) (op : Op) (v : View) (kind : String) : OSt × List String 
       | _ => []
   let cx5 := match op with
     | .coldreset | .fabrecover _ => []
+    | .restart | .crash _ | .corrupt =>
+      if hasX then setS cx4 "B" (";".intercalate ((items (getS cx4 "B" "")).filter (fun e => present (entryFab e)))) else cx4
     | _ => cx4
   -- C08: the deferred group key map is undone with the fail-safe
   let vx3 : List String :=
@@ -513,12 +518,15 @@ def oracle (st : OSt) (op : Op) (v : View) (kind : String) : OSt × List String 
             some s!"C07 stale-ext: [{e}] was made for incarnation {b.2} of fabric index {fab} and is still there on incarnation {lookupD inc fab 0}"
           else none
         | none => none)
+  -- 8. TLV round trip of a persisted structure (store -> load -> store): the implementation reports a mismatch
+  let vrt : List String :=
+    if kind == "rt" && v.status ≠ "ok" then [s!"C11 roundtrip-mismatch: {v.status}"] else []
   let hist := (v.k, (cmtF, cmtN), op == .freset) :: hist
   ({ prev := v, inc := inc, sessBind := sessBind, resBind := resBind, kvResBind := kvResBind,
      cmtF := cmtF, cmtN := cmtN, cmtUnknown := cmtUnknown, dirty := dirty, hist := hist,
      now := now, deadline := deadline, csr0 := csr0, csr1 := csr1, rootC := rootC, nocC := nocC, wiped := wiped,
      cmtX := cx5, xBind := xBind },
-   v07a ++ v07b ++ v07c ++ v07d ++ vx4 ++ vx3 ++ vx1 ++ vx2 ++ v08g ++ v08c ++ v08r ++ v08e ++ v11w ++ v11r)
+   v07a ++ v07b ++ v07c ++ v07d ++ vx4 ++ vx3 ++ vx1 ++ vx2 ++ vrt ++ v08g ++ v08c ++ v08r ++ v08e ++ v11w ++ v11r)
 
 /-! ## the driver loop -/
 
